@@ -461,3 +461,14 @@ package asp
 //@      target.Label.PackageName != "_please" && !whitelisted ==> \
 //@      (exists j int :: 0 <= j && j < len(state.Config.Parse.ExperimentalDir) && \
 //@         underDir(state.Config.Parse.ExperimentalDir[j], target.Label.PackageName))
+
+// parseFileInput (C19: the parser fails only with errors, never by crashing): everything that can signal a lexical
+// or grammatical error by panicking — creating the lexer already reads the first token — runs AFTER the recovery
+// handler has been installed.
+//@ assume func (parser).parseStatement
+//@ func parseFileInput
+//@   opt nopanic=off
+//@   opt panics=allowed
+//@   opt precall=off
+//@   callsite newLexer under_the_recovery_handler [C19]: deferred() >= 1
+//@   callsite (parser).parseStatement under_the_recovery_handler [C19]: deferred() >= 1
